@@ -582,6 +582,10 @@ func runInstance(c *run.Ctx, bin string, cfg instCfg, flt *filter, st *stats, ro
 			targets = append(targets, &target{r: r, method: m})
 		}
 	}
+	if len(targets) == 0 {
+		c.Undecided("the route dump holds no walkable route")
+		return false
+	}
 	nRoutes := 0
 	seen := map[string]bool{}
 	for _, t := range targets {
@@ -714,6 +718,20 @@ func runInstance(c *run.Ctx, bin string, cfg instCfg, flt *filter, st *stats, ro
 	}
 	in.quiesce()
 
+	// liveness control for unanswered requests: a route that answered in the authorized phase
+	var ctl *target
+	for _, t := range targets {
+		if hung[t.r.Template+"|"+t.method] || t.method != "GET" {
+			continue
+		}
+		if ctl == nil || t.r.Template == "/ready" {
+			ctl = t
+		}
+	}
+	if ctl == nil {
+		ctl = targets[0]
+	}
+
 	// ---- phase 2: every bad header, strictly sequential
 	cls := classes(cfg.Login, cfg.Pass)
 	cbs := combos
@@ -760,10 +778,13 @@ func runInstance(c *run.Ctx, bin string, cfg instCfg, flt *filter, st *stats, ro
 		c.Case(fmt.Sprintf("%s|%s|%s|%s|%s", cfg.Mode, t.r.Template, method, hc.Name, cb.Name))
 		rk := t.r.Template + "|" + method
 		to := 15 * time.Second
-		if hung[t.r.Template+"|"+t.method] || condemned[rk] {
+		if hung[t.r.Template+"|"+t.method] {
 			// the handler of this route is known not to answer (authorized phase): if the request
 			// got through, waiting long would tell nothing more
 			to = 2 * time.Second
+		}
+		if condemned[rk] {
+			to = 500 * time.Millisecond
 		}
 		before := in.srv.Seq()
 		a := in.send(method, u, hc.Values, cb, ct, body, extra, to)
@@ -777,34 +798,35 @@ func runInstance(c *run.Ctx, bin string, cfg instCfg, flt *filter, st *stats, ro
 			if !in.alive() {
 				return // reported by the caller through died()
 			}
+			// No answer. Not a wall-clock verdict: a liveness control (another route of the same
+			// server, which must produce some HTTP answer within the same time) follows every
+			// unanswered attempt; the witness stands only if the control is answered every time
+			// and the cell never is (4 of 4; 1 of 1 once the route has a confirmed witness).
+			live := func() bool {
+				k := in.send(ctl.method, url(ctl, false), nil, combos[0], "", "", nil, to)
+				st.requests++
+				return k.Err == ""
+			}
 			if condemned[rk] {
-				addFail(mk("no-answer", what+" got no HTTP answer ("+short(a.Err, 120)+"), like the earlier confirmed witnesses on this route"))
+				if live() {
+					addFail(mk("no-answer", what+" got no HTTP answer ("+short(a.Err, 120)+") while the server answered a control request, like the confirmed witnesses on this route"))
+				} else {
+					c.Undecided("transient transport error")
+				}
 				return
 			}
-			// No answer. Not a wall-clock verdict: repeat three times, each time preceded by a
-			// control request on the same route that the auth layer must refuse; the witness
-			// stands only if the control is answered every time and the cell never is.
-			ctl := cls[0]
-			if hc.Name == ctl.Name {
-				ctl = cls[1]
-			}
 			n := 0
-			for i := 0; i < 3; i++ {
+			for i := 0; i < 3 && live(); i++ {
 				in.quiesce()
-				k := in.send(method, u, ctl.Values, cb, ct, body, extra, to)
-				st.requests++
-				if k.Err != "" {
-					break // the server does not answer anything: undecided
-				}
 				if b := in.send(method, u, hc.Values, cb, ct, body, extra, to); b.Err != "" {
 					n++
 				}
 				st.requests++
 			}
-			if n == 3 && in.alive() {
+			if n == 3 && live() && in.alive() {
 				condemned[rk] = true
 				addFail(mk("no-answer", what+" got no HTTP answer 4 times in a row ("+short(a.Err, 120)+
-					") while a control request on the same route was answered each time: the request passed the auth layer"))
+					") while the server answered a control request on another route each time: the request passed the auth layer and hangs in the handler"))
 			} else {
 				c.Undecided("transient transport error")
 			}
